@@ -476,3 +476,19 @@ Proof.
   - intros x Hx. rewrite skipn_map in Hx. apply in_map_iff in Hx. destruct Hx as [j [<- Hj]].
     apply skipn_seq_in in Hj. apply nth_overflow. lia.
 Qed.
+
+(* ------------------------------------------------------------------ *)
+(* The hypothesis overlap < nswin of the theorems cannot be dropped: with overlap >= nswin and a signal
+   longer than the window the stride is <= 0, `last` never reaches ns and the source's `while True` loop
+   never breaks (the model runs out of any fuel). *)
+Lemma loop_diverges ns nswin ov : nswin <= ov -> nswin < ns ->
+  forall fuel first, first <= 0 -> firstlast_loop fuel ns nswin ov first = None.
+Proof.
+  intros Hov Hns. induction fuel as [|f IH]; intros first Hf; [reflexivity|].
+  cbn [firstlast_loop].
+  destruct (Z.min (first + nswin) ns =? ns) eqn:E; [lia|].
+  rewrite IH by lia. reflexivity.
+Qed.
+
+Lemma firstlast_diverges ns nswin ov : nswin <= ov -> nswin < ns -> firstlast ns nswin ov = None.
+Proof. intros Hov Hns. unfold firstlast. apply loop_diverges; lia. Qed.
